@@ -29,13 +29,34 @@ KINDS = ["framework", "databook", "progbook", "calibration", "binary", "progset_
 N = {"quick": 200, "thorough": 5000}
 
 
+ANCHORS = ["atomica/library/malaria_framework.xlsx", "atomica/library/combined_framework.xlsx", "atomica/library/tb_framework.xlsx", "tests/timed_tb_framework.xlsx"]  # 3 population types + week/day timescales + derivatives; 3 types with data; large; timed
+N_CORPUS = {"quick": 16, "thorough": 201}  # (thorough: 3 perturbed variants of each of the 67 corpus models)
+
+
 def count(tier, seed):
-    return N[tier] + len(LIB)
+    return N[tier] + len(LIB) + N_CORPUS[tier]
 
 
 def make_case(tier, seed, index):
     if index < len(LIB):
         return {"kind": "library", "name": LIB[index]}
+    index -= len(LIB)
+    if index < N_CORPUS[tier]:
+        # every framework / databook / program book shipped with the repository (several population types, cross-type
+        # interactions, comments, sparse years, fixtures with hand-made layouts), with mild calibration factors
+        from av import corpus
+
+        rng = gen.rng_for(seed, 16, 900000 + index)
+        ntot = len(corpus.PAIRS) + len(corpus.AUTO)
+        i = (index + seed * N_CORPUS[tier]) % ntot
+        if tier == "quick" and index < len(ANCHORS):  # models with unique features are in every quick run
+            names = [x[0] for x in corpus.PAIRS] + list(corpus.AUTO)
+            i = names.index(ANCHORS[index])
+        case = corpus.make_case(rng, max_steps=8)
+        fw, db, pbs = corpus.PAIRS[i] if i < len(corpus.PAIRS) else (corpus.AUTO[i - len(corpus.PAIRS)], None, [])
+        case.update({"kind": "corpus-roundtrip", "framework": fw, "databook": db, "progbook": pbs[int(rng.integers(0, len(pbs)))] if pbs else None, "mode": "mild", "budget_factor": 1.0, "prog_start_step": 1.0})
+        return case
+    index += len(LIB)
     rng = gen.rng_for(seed, 16, index)
     kind = KINDS[index % len(KINDS)]
     pf = {"p_targetable": 0.6, "p_function": 0.4, "n_pops": (1, 3), "p_transfer": 0.6, "p_aggregation": 0.5, "steps": (3, 12), "p_timevarying": 0.7}
@@ -183,7 +204,15 @@ def compare_runs(R, label, rA, rB, rtol=1e-9):
         # spreadsheet drops) may be amplified in a stiff model, so the floor is rtol x the largest stock / flow
         scale = max([1.0] + [float(np.nanmax(np.abs(np.where(np.isfinite(v), v, 0.0)))) for k, v in A.items() if k[0] in ("comp", "link") and v.size])
         diffs = []
+        try:
+            fpars = {n for n, f in rA.framework.pars["function"].items() if isinstance(f, str)}
+        except Exception:
+            fpars = set()
         for k in sorted(set(A) | set(B), key=str):
+            if k[0] == "par" and k[-1] in fpars:
+                # function parameters are judged through the stocks and flows they drive: a ratio of two quantities that are
+                # both rounding noise (1e-14 people) legitimately turns a 16th-digit difference of an input into O(1)
+                continue
             if k not in A or k not in B:
                 diffs.append((k, None, "present" if k in A else "missing", "present" if k in B else "missing"))
                 continue
@@ -219,6 +248,17 @@ def run_case(case):
             nt += round_trip(R, k, P, pset, instr, np.random.default_rng(1))
         return {"records": R.records(), "stats": R.stats, "nontrivial": True, "sample": {"kind": "library", "name": name}}
 
+    if kind == "corpus-roundtrip":
+        from av import corpus
+
+        P, pset, instr = corpus.build(dict(case, kind="corpus"))
+        if any("rand" in str(f) for f in P.framework.pars["function"] if f is not None):
+            return {"records": [], "stats": {"corpus_model_with_random_function": 1}, "nontrivial": False, "excluded": "stochastic parameter function (runs are not comparable)"}
+        R.count("corpus_cases")
+        R.count("corpus_population_types[%d]" % len(P.framework.pop_types))
+        for k in ("framework", "databook", "calibration", "binary") + (("progbook",) if pset is not None else ()):
+            round_trip(R, k, P, pset, instr, np.random.default_rng(1))
+        return {"records": R.records(), "stats": R.stats, "nontrivial": True, "sample": dict(corpus.describe(case), kind=kind)}
     spec, ps = case["spec"], case["progspec"]
     rng = np.random.default_rng(case["seed"])
     P = gen.build_project(spec)
@@ -245,6 +285,19 @@ def run_case(case):
 
 
 def round_trip(R, kind, P, pset, instr, rng):
+    """One write -> read -> compare cycle; a failure to write or to read back what was written is itself a violation."""
+    try:
+        return _round_trip(R, kind, P, pset, instr, rng)
+    except Exception as e:
+        import traceback
+
+        tb = traceback.extract_tb(e.__traceback__)
+        where = [f for f in tb if "/atomica/" in f.filename]
+        R.bad("round-trip-completes", "C16:%s-round-trip-fails[%s]" % (kind, type(e).__name__), {"error": str(e)[:300], "where": "%s:%s %s" % (where[-1].filename.split("/")[-1], where[-1].lineno, where[-1].name) if where else "harness"})
+        return 0
+
+
+def _round_trip(R, kind, P, pset, instr, rng):
     import atomica as at
     import sciris as sc
 
@@ -410,6 +463,17 @@ def copy_yfactors(src, dst):
                 if pop in dst.pars[name].y_factor:
                     dst.pars[name].y_factor[pop] = f
             dst.pars[name].meta_y_factor = par.meta_y_factor
+    for group in ("transfers", "interactions"):
+        for name, bysrc in getattr(src, group).items():
+            for frm, par in bysrc.items():
+                try:
+                    d = getattr(dst, group)[name][frm]
+                except Exception:
+                    continue
+                for pop, f in par.y_factor.items():
+                    if pop in d.y_factor:
+                        d.y_factor[pop] = f
+                d.meta_y_factor = par.meta_y_factor
 
 
 def progset_ops(R, case, P, pset, instr, rng):
